@@ -1512,6 +1512,15 @@ impl Oracle for SenderOracle {
 				return Err(f("recipient's claim settled but no PaymentSent".into()));
 			}
 			if p.failed_by_recipient && failed == 0 {
+				let restarted = w.obs.iter().any(|o| matches!(o, Obs::Restarted { node, .. } if *node == self.sender));
+				let listed = !w.nodes[self.sender].cm.list_recent_payments().is_empty();
+				let pending_htlcs: usize = w.nodes[self.sender].cm.list_channels().iter().map(|c| c.pending_outbound_htlcs.len()).sum();
+				if restarted && !listed && pending_htlcs == 0 {
+					// restarted from a manager older than the send: the payment is not listed, nothing is in
+					// flight and it can never complete – the property asks for nothing more
+					label.push('0');
+					continue;
+				}
 				return Err(f("payment failed by recipient but no PaymentFailed".into()));
 			}
 			if let Some(fee) = sent.first() {
